@@ -123,6 +123,10 @@ def gen_lines(rng, cv, count, outside):
             if v == "dig":
                 kk = abs(kk) & ((1 << 64) - 1)
             out.append("e2m %s %d %s %s" % (v, rng.below(2), ptok(rng, cv, P, "" if v.startswith("fix") else "P"), hx(kk)))
+        if v != "dig":
+            for kk in (-2, -(3 + rng.below(17)), -((1 << 63) + rng.below(1 << 20))):
+                for al in (0, 1):
+                    out.append("e2m %s %d %s %s" % (v, al, ptok(rng, cv, rng.choice(pool + [cv.g]), "" if v.startswith("fix") else "P"), hx(kk)))
     # scalars that are short combinations of powers of the Frobenius eigenvalue (k = c0 + c1*L + c2*L^2 + c3*L^3 mod r, L = p mod r: the
     # GLS recodings decompose them into exactly these sub-scalars): zero, negative, one-digit and mixed-sign sub-scalars in every position
     L = cv.p % cv.n
